@@ -1,3 +1,4 @@
+import AquaVerif.Proofs.WeatherBind
 import AquaVerif.Model.RunShape
 import AquaVerif.Properties.C14
 /-
@@ -98,5 +99,46 @@ theorem positional_binding_is_not_invariant :
 /-- non-vacuity: a five-column table with an extra column, permuted -/
 example : bindTable (κ := Nat) ⟨[("Date", [7]), ("Wind", [0]), ("ReferenceET", [4]), ("Precipitation", [3]),
       ("MaxTemp", [2]), ("MinTemp", [1])]⟩ = some [[1], [2], [3], [4], [7]] := by decide
+
+/-! ### tie of the shapes to the code (`Model/WeatherBind.lean`, replayed by the `weather_bind` tie) -/
+
+section impl
+open Aqua.WeatherBind
+theorem impl_perm_columns {κ ι ι' : Type} (s e : Int) (t : WTable κ ι) (t' : WTable κ ι')
+    (hp : t.cols.Perm t'.cols) (hnd : (t.cols.map (·.1)).Nodup) :
+    weatherMatrix s e t = weatherMatrix s e t' := weatherMatrix_perm_columns s e t t' hp hnd
+
+theorem impl_extra_columns {κ ι ι' : Type} (s e : Int) (pre extra post : List (String × List (WCell κ)))
+    (idx : List ι) (idx' : List ι') (hx : ∀ c ∈ extra, c.1 ∉ required) :
+    weatherMatrix s e ({ cols := pre ++ extra ++ post, index := idx } : WTable κ ι) =
+      weatherMatrix s e ({ cols := pre ++ post, index := idx' } : WTable κ ι') :=
+  weatherMatrix_extra_columns s e pre extra post idx idx' hx
+
+theorem impl_reindex {κ ι ι' : Type} (s e : Int) (t : WTable κ ι) (idx' : List ι') :
+    weatherMatrix s e ({ cols := t.cols, index := idx' } : WTable κ ι') = weatherMatrix s e t :=
+  weatherMatrix_reindex s e t idx'
+
+/-- the implementation = positional checks, then `bindTable`, then `clip` -/
+theorem impl_eq_bind_clip {κ ι : Type} (s e : Int) {t : WTable κ ι} {ds : List Int}
+    (hnd : (t.cols.map (·.1)).Nodup) (h : sel "Date" t.cols = [ds.map .date]) :
+    weatherMatrix s e t =
+      match ds.head?, ds.getLast? with
+      | some d0, some d1 =>
+        if s < d0 then .error "E:first-date"
+        else if d1 < e then .error "E:last-date"
+        else match bindTable t.toTable with
+          | none => .error "E:key"
+          | some cs => .ok ((clip s e (ds.zip (rowsOf cs))).map (·.2))
+      | _, _ => .error "E:index" := weatherMatrix_eq_bind_clip s e hnd h
+
+/-- rows are bound by date when the table is sorted, gap-free, duplicate-free and covers the window
+(and only then: counter-examples in `Proofs/WeatherBind.lean` §5 — the implementation binds rows by
+position after clipping) -/
+theorem impl_rows_by_date {κ ι : Type} (s e d0 : Int) (n : Nat) {t : WTable κ ι}
+    (h : sel "Date" t.cols = [(contig d0 n).map .date]) (h0 : d0 ≤ s) (h1 : e < d0 + n)
+    {m : List (List (WCell κ))} (hm : weatherMatrix s e t = .ok m) (k : Nat) (r : List (WCell κ))
+    (hr : dayRow m k = .ok r) : r.getLast? = some (.date (s + k)) :=
+  dayRow_date_of_contiguous s e d0 n h h0 h1 hm k r hr
+end impl
 
 end Aqua.C15
